@@ -396,8 +396,9 @@ case_t gen_case(vf::ctx_t& c, const bool multi_pools)
         }
     }
 
-    cs.threads = static_cast<size_t>(multi_pools ? rng.pick(std::vector<int64_t>{2, 2, 3, 4, 8, 16})
-                                                 : rng.pick(std::vector<int64_t>{1, 1, 1, 2, 3, 4, 8, 16}));
+    // every pool size of the quantifier 1..16 is reachable (reductions may be wrong for particular counts only)
+    cs.threads = static_cast<size_t>(multi_pools ? rng.pick(std::vector<int64_t>{2, 2, 3, 4, 8, 16, rng.integer(2, 16), rng.integer(5, 15)})
+                                                 : rng.pick(std::vector<int64_t>{1, 1, 1, 2, 3, 4, 8, 16, rng.integer(2, 16), rng.integer(5, 15)}));
     return cs;
 }
 
